@@ -21,7 +21,12 @@ def gen_tables():
             "other_intrinsics": others, "instructions": instrs}
 
 
-ALL = [gen_share, gen_tables]
+def gen_stats():
+    from pyt2coq import stats
+    core.write_if_changed(core.GEN / "GenStats.v", stats.translate(core.PKG))
+
+
+ALL = [gen_share, gen_tables, gen_stats]
 
 
 def gen_all(strict=True):
